@@ -127,6 +127,9 @@ def _finish(seed, tier, world, strategies, program, ns, threads, noisy, failing,
     }
     real_pool = tier == "thorough" and threads > 1 and rs.random() < 0.03
     faults = []
+    if R.sub(seed, "print").random() < 0.15:
+        sched["print_actions"] = True  # BacktestConfig(print_actions=True): every recorded action is formatted and printed
+        faults.append({"kind": "print_actions"})
     rr = R.sub(seed, "rounds")
     if ns >= 2 and rr.random() < 0.22:
         # several consecutive manager runs over the SAME configuration and data objects in one process. At most one of
@@ -571,7 +574,7 @@ def _session(scenario, idxs, threads, outdir, real_pool=False, frames=None, roun
             with (seam if not real_pool else _Null()):
                 for r, size in enumerate(sizes):
                     part, at = strategies[at:at + size], at + size
-                    mgr = BacktestManager(config=config, data=data, strategies=part, backtest_config=BacktestConfig(interval=world.get("interval", "1min")), threads=threads)
+                    mgr = BacktestManager(config=config, data=data, strategies=part, backtest_config=BacktestConfig(interval=world.get("interval", "1min"), print_actions=bool(scenario.get("sched", {}).get("print_actions"))), threads=threads)
                     mgr.run()
         except SP.SimPoolError:
             raise
@@ -816,10 +819,13 @@ def _judge(res, scenario, order, threads, alone, alone_info, info, got, k):
         raise HarnessError("more than one pool round in a session (set_start_method is once per process)")
     if len(sizes) > 1:
         res.count("fault:consecutive_manager_runs")
+    if scenario.get("sched", {}).get("print_actions"):
+        res.count("fault:print_actions")
     exc_round = (info["exception"] or {}).get("round")
     aborted = info["exception"] is not None and exc_round not in pool_round
     left_open = False
     any_diff = False
+    raiser_seen = False
     for j, i in enumerate(order):
         name = strategies[i]["name"]
         rec = got.get(i)
@@ -861,10 +867,19 @@ def _judge(res, scenario, order, threads, alone, alone_info, info, got, k):
         if pred_left:
             left_open = True
         res.event("mgr", name, path, digest(_public(rec)) if rec is not None else None)
-        if aborted and rec is None and alone[i] is not None:
-            # carve-out: an exception escaping a strategy aborts an in-process batch (plain Python semantics)
-            res.count("probe:inprocess_batch_aborted_by_exception")
-            continue
+        if aborted and rec is None and not in_pool:
+            # an exception escaping a strategy aborts an in-process batch (plain Python semantics): the first strategy
+            # without a result is the one that raised (judged below against its own run alone), the ones after it were
+            # never started and are not compared
+            if raiser_seen:
+                res.count("probe:inprocess_batch_aborted_by_exception")
+                continue
+            raiser_seen = True
+            if alone[i] is not None:  # raised under the manager although it runs through alone
+                res.count("probe:inprocess_batch_aborted_by_exception")
+                diff = _compare(res, scenario, i, path, alone[i], rec, alone_info[i], info, task=None)
+                any_diff = any_diff or diff
+                continue
         diff = _compare(res, scenario, i, path, alone[i], rec, alone_info[i], info, task=call if in_pool else None)
         any_diff = any_diff or diff
         res.state((path, min(ns, 4), min(threads, 3), bool(before), pred_left, pred_noisy, bool(strategies[i].get("noisy")), "diff" if diff else "same"))
